@@ -720,3 +720,173 @@ Proof.
     + apply ss_lt_NoDup. exact (g_sorted G idx gfirst glast gn gs gs_ok gs_sorted g Hg).
 Qed.
 End LevelPerm.
+
+(* ------------------------------------------------------------------ *)
+(* 6. traces                                                           *)
+(* ------------------------------------------------------------------ *)
+
+Lemma no_assert_nil : no_assert [].
+Proof. intros id []. Qed.
+
+Lemma no_assert_app a b : no_assert a -> no_assert b -> no_assert (a ++ b).
+Proof. intros Ha Hb id H. apply in_app_or in H. destruct H as [H|H]; [exact (Ha id H)|exact (Hb id H)]. Qed.
+
+Lemma no_assert_fm {A} (F : A -> list call) l : (forall a, In a l -> no_assert (F a)) -> no_assert (flat_map F l).
+Proof. intros H id Hin. apply in_flat_map in Hin. destruct Hin as (a & Ha & Hin). exact (H a Ha id Hin). Qed.
+
+Lemma elementary_app a b : elementary (a ++ b) = elementary a ++ elementary b.
+Proof. apply flat_map_app. Qed.
+
+Lemma elementary_fm {A} (F : A -> list call) l : elementary (flat_map F l) = flat_map (fun a => elementary (F a)) l.
+Proof. apply fm_fm. Qed.
+
+Lemma fm_single {A B} (h : A -> B) l : flat_map (fun x => [h x]) l = map h l.
+Proof. induction l as [|a l IH]; [reflexivity|]. cbn [flat_map map app]. rewrite IH. reflexivity. Qed.
+
+(* ------------------------------------------------------------------ *)
+(* 7. M2L                                                              *)
+(* ------------------------------------------------------------------ *)
+
+Definition rec_ok (g : cgroup) (x : xinter) : Prop :=
+  cg_find g (x_tgt x) = Some (x_tpos x) /\ znth (cg_cells g) (x_tpos x) (-1) = x_tgt x.
+
+Definition between_body (d : nat) (lvl : Z) (tgt src : cgroup) (run : list xinter) : list call :=
+    match run with
+    | [] => []
+    | x0 :: _ =>
+        let srcs := flat_map (fun x => match cg_find src (x_src x) with Some _ => [(x_src x, x_code x)] | None => [] end) run in
+        let chk := if forallb (fun x => match cg_find tgt (x_tgt x) with Some k => k =? x_tpos x | None => false end)
+                              (filter (fun x => match cg_find src (x_src x) with Some _ => true | None => false end) run)
+                   then [] else [CAssert 145] in
+        let chk2 := if zlen srcs <=? nb_interactions d then [] else [CAssert 148] in
+        match srcs with
+        | [] => chk
+        | _ => chk ++ chk2 ++ [CM2L lvl (znth (cg_cells tgt) (x_tpos x0) (-1)) srcs]
+        end
+    end.
+
+Lemma m2l_between_unfold d lvl tgt src view :
+  m2l_between d lvl tgt src view = flat_map (between_body d lvl tgt src) (runs_by_target view []).
+Proof. reflexivity. Qed.
+
+Definition in_body (d : nat) (lvl : Z) (g : cgroup) (run : list xinter) : list call :=
+    match run with
+    | [] => []
+    | x0 :: _ =>
+        let chk := if forallb (fun x => match cg_find g (x_src x) with Some _ => true | None => false end) run then [] else [CAssert 101] in
+        let chk1 := if forallb (fun x => match cg_find g (x_tgt x) with Some k => k =? x_tpos x | None => false end) run then [] else [CAssert 102] in
+        let chk2 := if zlen run <=? nb_interactions d then [] else [CAssert 105] in
+        chk ++ chk1 ++ chk2 ++ [CM2L lvl (znth (cg_cells g) (x_tpos x0) (-1)) (map (fun x => (x_src x, x_code x)) run)]
+    end.
+
+Lemma m2l_in_group_unfold d lvl g lst :
+  m2l_in_group d lvl g lst = flat_map (in_body d lvl g) (runs_by_target lst []).
+Proof. reflexivity. Qed.
+
+Definition em2l (lvl : Z) (x : xinter) : elem := EM2L lvl (x_tgt x) (x_src x) (x_code x).
+
+Lemma between_body_nf d lvl g G run : run <> [] -> uniform run -> Forall (rec_ok g) run ->
+  zlen run <= nb_interactions d ->
+  no_assert (between_body d lvl g G run) /\
+  elementary (between_body d lvl g G run)
+  = flat_map (fun x => match cg_find G (x_src x) with Some _ => [em2l lvl x] | None => [] end) run.
+Proof.
+  destruct run as [|x0 r]; [congruence|]. intros _ Hu Hok Hlen. unfold between_body. cbv zeta.
+  set (F := fun x : xinter => match cg_find G (x_src x) with Some _ => [(x_src x, x_code x)] | None => [] end).
+  set (srcs := flat_map F (x0 :: r)).
+  rewrite Forall_forall in Hok.
+  assert (Hchk : forallb (fun x => match cg_find g (x_tgt x) with Some k => k =? x_tpos x | None => false end)
+                   (filter (fun x => match cg_find G (x_src x) with Some _ => true | None => false end) (x0 :: r)) = true).
+  { apply forallb_forall. intros x Hx. apply filter_In in Hx. destruct Hx as [Hx _].
+    destruct (Hok x Hx) as [E _]. rewrite E. apply Z.eqb_refl. }
+  rewrite Hchk.
+  assert (Hchk2 : (zlen srcs <=? nb_interactions d) = true).
+  { apply Z.leb_le. unfold zlen in *.
+    assert (Hl : (length srcs <= length (x0 :: r))%nat).
+    { apply fm_le1_length. intros a. unfold F. destruct (cg_find G (x_src a)); cbn; lia. }
+    lia. }
+  rewrite Hchk2. cbn [app].
+  destruct (Hok x0 (or_introl eq_refl)) as [_ Ht]. rewrite Ht.
+  assert (Hel : map (fun sc => EM2L lvl (x_tgt x0) (fst sc) (snd sc)) srcs
+                = flat_map (fun x => match cg_find G (x_src x) with Some _ => [em2l lvl x] | None => [] end) (x0 :: r)).
+  { unfold srcs. rewrite map_fm. apply fm_ext_in. intros x Hx. unfold F, em2l.
+    rewrite (Hu x x0 Hx (or_introl eq_refl)). destruct (cg_find G (x_src x)); reflexivity. }
+  destruct srcs as [|s0 sr] eqn:Es.
+  - split; [apply no_assert_nil|]. rewrite <- Hel. reflexivity.
+  - split.
+    + intros id [H|[]]. discriminate.
+    + unfold elementary. cbn [flat_map elems_of_call]. rewrite app_nil_r. exact Hel.
+Qed.
+
+Lemma in_body_nf d lvl g run : run <> [] -> uniform run -> Forall (rec_ok g) run ->
+  (forall x, In x run -> exists k, cg_find g (x_src x) = Some k) ->
+  zlen run <= nb_interactions d ->
+  no_assert (in_body d lvl g run) /\ elementary (in_body d lvl g run) = flat_map (fun x => [em2l lvl x]) run.
+Proof.
+  destruct run as [|x0 r]; [congruence|]. intros _ Hu Hok Hsrc Hlen. unfold in_body. cbv zeta.
+  rewrite Forall_forall in Hok.
+  assert (Hchk : forallb (fun x => match cg_find g (x_src x) with Some _ => true | None => false end) (x0 :: r) = true).
+  { apply forallb_forall. intros x Hx. destruct (Hsrc x Hx) as (k & E). rewrite E. reflexivity. }
+  assert (Hchk1 : forallb (fun x => match cg_find g (x_tgt x) with Some k => k =? x_tpos x | None => false end) (x0 :: r) = true).
+  { apply forallb_forall. intros x Hx. destruct (Hok x Hx) as [E _]. rewrite E. apply Z.eqb_refl. }
+  assert (Hchk2 : (zlen (x0 :: r) <=? nb_interactions d) = true) by (apply Z.leb_le; exact Hlen).
+  rewrite Hchk, Hchk1, Hchk2. cbn [app].
+  destruct (Hok x0 (or_introl eq_refl)) as [_ Ht]. rewrite Ht. split.
+  - intros id [H|[]]. discriminate.
+  - unfold elementary. cbn [flat_map elems_of_call]. rewrite app_nil_r, map_map, fm_single.
+    apply map_ext_in. intros x Hx. unfold em2l. cbn [fst snd].
+    rewrite (Hu x x0 Hx (or_introl eq_refl)). reflexivity.
+Qed.
+
+Lemma run_length_bound (N : Z) v run : In run (runs_by_target v []) ->
+  (forall x, In x v -> zlen (filter (fun y => x_tgt y =? x_tgt x) v) <= N) -> zlen run <= N.
+Proof.
+  intros Hrun Hb. destruct (runs_props v run Hrun) as (Hne & Hu & Hseg).
+  destruct run as [|x0 r]; [congruence|].
+  assert (Hx0 : In x0 v) by (apply (seg_incl _ _ Hseg); left; reflexivity).
+  specialize (Hb x0 Hx0).
+  pose proof (seg_filter_len (fun y => x_tgt y =? x_tgt x0) _ _ Hseg) as Hl.
+  rewrite (filter_all _ (x0 :: r)) in Hl.
+  - unfold zlen in *. lia.
+  - intros a Ha. apply Z.eqb_eq. apply Hu; [exact Ha|left; reflexivity].
+Qed.
+
+Lemma m2l_between_ok d lvl g G v : Forall (rec_ok g) v ->
+  (forall x, In x v -> zlen (filter (fun y => x_tgt y =? x_tgt x) v) <= nb_interactions d) ->
+  no_assert (m2l_between d lvl g G v) /\
+  elementary (m2l_between d lvl g G v)
+  = flat_map (fun x => match cg_find G (x_src x) with Some _ => [em2l lvl x] | None => [] end) v.
+Proof.
+  intros Hok Hb. rewrite m2l_between_unfold.
+  assert (Hrun : forall run, In run (runs_by_target v []) ->
+            no_assert (between_body d lvl g G run) /\
+            elementary (between_body d lvl g G run)
+            = flat_map (fun x => match cg_find G (x_src x) with Some _ => [em2l lvl x] | None => [] end) run).
+  { intros run Hrun. destruct (runs_props v run Hrun) as (Hne & Hu & Hseg).
+    apply between_body_nf; try assumption.
+    - rewrite Forall_forall in *. intros x Hx. apply Hok. apply (seg_incl _ _ Hseg). exact Hx.
+    - apply (run_length_bound _ v run Hrun Hb). }
+  split.
+  - apply no_assert_fm. intros run Hr. apply (Hrun run Hr).
+  - rewrite elementary_fm. rewrite (fm_ext_in _ _ _ (fun run Hr => proj2 (Hrun run Hr))).
+    apply runs_flat.
+Qed.
+
+Lemma m2l_in_group_ok d lvl g v : Forall (rec_ok g) v ->
+  (forall x, In x v -> exists k, cg_find g (x_src x) = Some k) ->
+  (forall x, In x v -> zlen (filter (fun y => x_tgt y =? x_tgt x) v) <= nb_interactions d) ->
+  no_assert (m2l_in_group d lvl g v) /\ elementary (m2l_in_group d lvl g v) = flat_map (fun x => [em2l lvl x]) v.
+Proof.
+  intros Hok Hsrc Hb. rewrite m2l_in_group_unfold.
+  assert (Hrun : forall run, In run (runs_by_target v []) ->
+            no_assert (in_body d lvl g run) /\ elementary (in_body d lvl g run) = flat_map (fun x => [em2l lvl x]) run).
+  { intros run Hrun. destruct (runs_props v run Hrun) as (Hne & Hu & Hseg).
+    apply in_body_nf; try assumption.
+    - rewrite Forall_forall in *. intros x Hx. apply Hok. apply (seg_incl _ _ Hseg). exact Hx.
+    - intros x Hx. apply Hsrc. apply (seg_incl _ _ Hseg). exact Hx.
+    - apply (run_length_bound _ v run Hrun Hb). }
+  split.
+  - apply no_assert_fm. intros run Hr. apply (Hrun run Hr).
+  - rewrite elementary_fm. rewrite (fm_ext_in _ _ _ (fun run Hr => proj2 (Hrun run Hr))).
+    apply runs_flat.
+Qed.
